@@ -866,10 +866,10 @@ class InterfaceClass(_InterfaceClassBase):
             return self.__attrs.items()
 
         r = {}
-        for base in self.__bases__[::-1]:
-            r.update(dict(base.namesAndDescriptions(all)))
-
-        r.update(self.__attrs)
+        # Follow the resolution order, most specific last, so that each name
+        # gets the same description that ``get()``/``__getitem__`` find.
+        for iface in reversed(self.__iro__):
+            r.update(iface.namesAndDescriptions())
 
         return r.items()
 
